@@ -18,7 +18,7 @@ import (
 
 func init() {
 	seqChecks["c13"] = &seqCheck{run: runC13, replay: replayC13,
-		rule: "every mutation history of <=3 (4 thorough) operations {Create, Update, Delete} x ids {a,b,c} x values with key vectors {nil,k,ka,l} x {nil,k} (two indexes), each on a fresh badgerstore + QueryStore under the scheduler; after Flush 16 basic queries per history and the full set (2 indexes x 7 prefixes x 3 filters x 4 offsets x 4 limits x 2 directions = 1344) on every distinct content of depth<=2 are compared with a sorted/filtered/windowed scan of the model map; OnQueryChange count, the query result inside the callback and Events() are checked for every mutation (C14); distinct = distinct (history, result vector)"}
+		rule: "every mutation history of <=3 (4 thorough) operations {Create, Update, Delete, two updates in one transaction, update+delete in one transaction} x ids {a,b,c} x values with key vectors {nil,k,ka,l} x {nil,k} (two indexes), each on a fresh badgerstore + QueryStore under the scheduler; after Flush 16 basic queries per history and the full set (2 indexes x 7 prefixes x 3 filters x 4 offsets x 4 limits x 2 directions = 1344) on every distinct content of depth<=2 are compared with a sorted/filtered/windowed scan of the model map; OnQueryChange count, the query result inside the callback and Events() are checked for every mutation (C14); distinct = distinct (history, result vector)"}
 }
 
 type c13Val struct{ k1, k2 string } // "" = nil key
@@ -238,6 +238,8 @@ func c13Run(db *badger.DB, prefix string, ops []c13Op, queries []c13Query, emit 
 			wt := st.Write(op.ID)
 			var err error
 			ok := false
+			multi := op.Kind == "upup" || op.Kind == "updel"
+			multiChanges := 0
 			switch op.Kind {
 			case "create":
 				err = wt.Create(c13Vals[op.Val].value())
@@ -257,6 +259,31 @@ func c13Run(db *badger.DB, prefix string, ops []c13Op, queries []c13Query, emit 
 					delete(model, op.ID)
 					ok = true
 				}
+			case "upup":
+				// two updates inside one write transaction
+				mid := c13Vals[(op.Val+1)%len(c13Vals)]
+				if e1 := wt.Update(mid.value()); e1 == nil {
+					model[op.ID] = mid
+					multiChanges += keyChanges(before, had, mid, true)
+					err = wt.Update(c13Vals[op.Val].value())
+					if err == nil {
+						multiChanges += keyChanges(mid, true, c13Vals[op.Val], true)
+						model[op.ID] = c13Vals[op.Val]
+						ok = true
+					}
+				}
+			case "updel":
+				// an update and a delete inside one write transaction
+				if e1 := wt.Update(c13Vals[op.Val].value()); e1 == nil {
+					multiChanges += keyChanges(before, had, c13Vals[op.Val], true)
+					model[op.ID] = c13Vals[op.Val]
+					err = wt.Delete()
+					if err == nil {
+						multiChanges += keyChanges(c13Vals[op.Val], true, c13Val{}, false)
+						delete(model, op.ID)
+						ok = true
+					}
+				}
 			}
 			wt.Close()
 			n0 := len(qcs)
@@ -269,9 +296,15 @@ func c13Run(db *badger.DB, prefix string, ops []c13Op, queries []c13Query, emit 
 			if changed {
 				want = 1
 			}
+			if multi {
+				want = multiChanges
+			}
 			step := fmt.Sprintf("op %d %s", oi, op)
 			if len(got) != want {
 				emit("C14", fmt.Sprintf("%s: %d query-change callbacks after Flush, want %d", step, len(got), want))
+			}
+			if multi {
+				got = nil // the per-callback checks below assume one mutation per transaction
 			}
 			for _, g := range got {
 				if g.id != op.ID || g.before != had || g.after != has {
@@ -383,6 +416,12 @@ func runC13(c *seqCtx) {
 			if present[id] {
 				for vi := range c13Vals {
 					rec(append(append([]c13Op{}, ops...), c13Op{"update", id, vi}), present)
+				}
+				for _, vi := range []int{1, 2, 5, 8} {
+					rec(append(append([]c13Op{}, ops...), c13Op{"upup", id, vi}), present)
+					np := copyPresent(present)
+					delete(np, id)
+					rec(append(append([]c13Op{}, ops...), c13Op{"updel", id, vi}), np)
 				}
 				np := copyPresent(present)
 				delete(np, id)
@@ -497,6 +536,22 @@ func init() {
 			c13Burst(db, func(prop, desc string) { out = append(out, prop+": "+desc) })
 			return out
 		}}
+}
+
+// keyChanges counts whether a mutation changes some index key (1) or none (0).
+func keyChanges(b c13Val, had bool, a c13Val, has bool) int {
+	k := func(v c13Val, present bool) (string, string) {
+		if !present {
+			return "", ""
+		}
+		return v.k1, v.k2
+	}
+	b1, b2 := k(b, had)
+	a1, a2 := k(a, has)
+	if b1 != a1 || b2 != a2 {
+		return 1
+	}
+	return 0
 }
 
 func usedID(ops []c13Op, id string) bool {
